@@ -746,6 +746,10 @@ where
                 if fam.max_edges != usize::MAX && edge_count_of(fam, idx) > fam.max_edges {
                     continue;
                 }
+                if Instant::now() > deadline {
+                    stats.capped.store(true, Ordering::Relaxed);
+                    break;
+                }
                 for &(no, eo) in &fam.orders {
                     let mut b = build(fam, idx, no, eo);
                     if b.edges.len() < fam.min_edges {
